@@ -250,6 +250,7 @@ void run_shape_impl(const ShapeDesc& sd, RunCtl& ctl, Make make) {
   run_state() = &rs;
   rs.use_inplace = C::inplace;
   begin_run(sd, ctl, rs);
+  rs.w.root_type = &typeid(Root<C>);
   using Snd = decltype(make(Env<C>{}));
   ctl.trait_blocking = (int)unifex::sender_traits<Snd>::blocking();
   ctl.trait_sends_done = unifex::sender_traits<Snd>::sends_done;
